@@ -29,6 +29,7 @@ type PropSpec struct {
 	Rule      string
 	Assume    []string
 	Profiles  []string // profiles cycled over jobs ("" = scenario decides from the tape)
+	Cells     int      // >0: enumerated matrix; job i gets knob cell = i % Cells
 }
 
 var commonAssume = []string{
@@ -268,6 +269,9 @@ func cmdCheck(args []string) int {
 				return
 			}
 			j := &Job{ID: i + 1, Prop: id, Profile: profiles[i%len(profiles)], Seed: seed*1000003 + int64(i), Tier: tier, WantLog: i < 3*len(profiles)}
+			if spec.Cells > 0 {
+				j.Knobs = map[string]int{"cell": i % spec.Cells}
+			}
 			select {
 			case pool.jobs <- j:
 			case <-stop:
@@ -415,35 +419,35 @@ func dumpDiff(a, b []string) {
 func writeEvidence(vdir string, spec *PropSpec, tier string, seed int64, a *agg, wall, buildSecs, runSecs float64, violations, workers int, tree string) {
 	os.MkdirAll(filepath.Join(vdir, "evidence"), 0o755)
 	cov := map[string]interface{}{
-		"evaluations":         a.runs,
-		"distinct_nontrivial": len(a.ntHashes),
-		"rule":                spec.Rule,
-		"samples":             a.samples,
-		"nontrivial_runs":     a.nontriv,
-		"distinct_logs":       len(a.hashes),
-		"distinct_trace_shapes": len(a.shapes),
-		"abstract_states":     len(a.states),
-		"abstract_transitions": len(a.trans),
-		"seeds":               fmt.Sprintf("%d*1000003 + [0,%d)", seed, a.runs),
-		"runs_per_hour":       int(float64(a.runs) / maxf(runSecs, 0.001) * 3600),
-		"simulated_seconds":   float64(a.simNanos) / 1e9,
-		"external_steps":      a.extSteps,
-		"scheduling_steps":    a.schSteps,
-		"steps_with_choice":   a.choice,
-		"non_natural_choices": a.nonNat,
-		"holds":               a.holds,
-		"twin_orderings":      a.twins,
+		"evaluations":                 a.runs,
+		"distinct_nontrivial":         len(a.ntHashes),
+		"rule":                        spec.Rule,
+		"samples":                     a.samples,
+		"nontrivial_runs":             a.nontriv,
+		"distinct_logs":               len(a.hashes),
+		"distinct_trace_shapes":       len(a.shapes),
+		"abstract_states":             len(a.states),
+		"abstract_transitions":        len(a.trans),
+		"seeds":                       fmt.Sprintf("%d*1000003 + [0,%d)", seed, a.runs),
+		"runs_per_hour":               int(float64(a.runs) / maxf(runSecs, 0.001) * 3600),
+		"simulated_seconds":           float64(a.simNanos) / 1e9,
+		"external_steps":              a.extSteps,
+		"scheduling_steps":            a.schSteps,
+		"steps_with_choice":           a.choice,
+		"non_natural_choices":         a.nonNat,
+		"holds":                       a.holds,
+		"twin_orderings":              a.twins,
 		"injected_scheduling_delay_s": float64(a.injDelay) / 1e9,
-		"faults_fired":        a.faults,
-		"probes":              a.probes,
-		"lock_sites_seen":     len(a.sigSites),
-		"determinism_reexecutions": a.reexec,
-		"known_findings_hit":  a.knownHits,
-		"emulator_crashes":    a.crashes,
-		"profiles":            a.profiles,
-		"workers":             workers,
-		"build_s":             buildSecs,
-		"tree":                tree,
+		"faults_fired":                a.faults,
+		"probes":                      a.probes,
+		"lock_sites_seen":             len(a.sigSites),
+		"determinism_reexecutions":    a.reexec,
+		"known_findings_hit":          a.knownHits,
+		"emulator_crashes":            a.crashes,
+		"profiles":                    a.profiles,
+		"workers":                     workers,
+		"build_s":                     buildSecs,
+		"tree":                        tree,
 		"real_vs_stub": map[string]string{
 			"real": "lambda/rapidcore, lambda/rapid, lambda/rapi (server, routers, middleware, handlers, rendering), lambda/core, appctx, fatalerror, interop, agents, extensions, telemetry no-op tracer, metering except Monotime, cmd/aws-lambda-rie handlers/bootstrap/util, net/http server, chi, uuid, logrus",
 			"stub": "child processes and kernel (fake ProcessSupervisor / simulated kernel for C19), TCP (in-memory conns), clocks (bubble), main()/flags/startHTTPServer, sync.Mutex/RWMutex/Once (scheduler-owned), HTTP clients of runtime/extensions/callers (hand-written HTTP/1.1 client)",
